@@ -11,7 +11,7 @@
 (*   reader/service/tempoService.go                  Query (ORDER BY timestamp_ns) / OutputQuery (stops at the   *)
 (*                                                   first undecodable row) / parseZipkinJSON / parseOTLP       *)
 (* as operators over the final rows.  The MECHANISM is transcribed rule by rule, in the order the code works    *)
-(* (the Zipkin decoder one JSON key per step, in the order the keys arrive).  The DEFINITION (Def*) is what the *)
+(* (the Zipkin decoder one JSON key per step, in the order the keys arrive).  The DEFINITION (Def..) is what the  *)
 (* property statement demands of a span independent of key order, framing and position in the body.            *)
 (* `Flags' lists the clauses of the statement the mechanism breaks for the body at hand (CANDIDATES; the        *)
 (* binding runs the real code on the same body and decides).                                                   *)
